@@ -23,19 +23,19 @@ def chk_sf(inp):
         else:
             ph = numpy.zeros((R, C)); ph[min(1, R - 1)] = 1.0
         if step is None:
-            if R < C:
-                return
             st, n = 1, C / 4
             sf = aotools.calculate_structure_function(ph.copy())
         else:
             st, n = int(step), int(nb)
-            if st < 1 or n < 1 or n * st > R + st - 1:
+            if st < 1 or n < 1:
                 return
             sf = aotools.calculate_structure_function(ph.copy(), nbOfPoint=n, step=st)
-        xm = int(min(n, C / st - 1))
+        xm = int(min(n, R / st - 1))
         if len(sf) != max(xm, 0):
             return bad("length of the structure function", len(sf), xm)
         for j in range(len(sf)):
+            if j * st >= R:
+                return bad("lag %d (step %d) leaves no overlapping row of a %dx%d phase: the estimator returns %r" % (j, st, R, C, float(sf[j])), float(sf[j]), "a lag with at least one overlapping row")
             want = 0.0 if j == 0 else numpy.mean((ph[:R - j * st] - ph[j * st:]) ** 2)
             if not abs(sf[j] - want) <= 1e-9 * max(1, abs(want)):
                 return bad("sf[%d] (%s phase %dx%d, step %d) is not the mean squared difference at lag %d" % (j, kind, R, C, st, j * st), float(sf[j]), float(want))
@@ -46,7 +46,7 @@ def chk_sf(inp):
 
 
 def fam_sf(tier, seed):
-    for R, C in ((8, 8), (12, 12), (16, 8), (33, 20)):
+    for R, C in ((8, 8), (12, 12), (16, 8), (33, 20), (6, 64), (5, 9)):
         yield {"R": R, "C": C, "step": None, "nb": None}
         for step in (1, 2, 3):
             for nb in (1, 2, 4):
